@@ -31,15 +31,23 @@ func (Engine) Gen(prop, tier string, r *detsim.Rand) interface{} {
 
 // GenIndexed / SystematicTotal: the long histories of C08 and C12 (see GenLong); the driver splits them evenly among its workers.
 func (Engine) GenIndexed(prop, tier string, n uint64) interface{} {
-	if (prop != "C08" && prop != "C12") || n >= NLong {
+	if (prop != "C08" && prop != "C12") || n >= nLong(tier) {
 		return nil
 	}
 	return GenLong(prop, n)
 }
 
+// nLong: one long history per worker in the quick tier, four in the thorough one.
+func nLong(tier string) uint64 {
+	if tier == "thorough" {
+		return 4 * NLong
+	}
+	return NLong
+}
+
 func (Engine) SystematicTotal(prop, tier string) uint64 {
 	if prop == "C08" || prop == "C12" {
-		return NLong
+		return nLong(tier)
 	}
 	return 0
 }
